@@ -554,6 +554,9 @@ def classify_parse(case, out, v):
     # an option written without its value and re-rendered as the bare flag (joined rendering of an empty value)
     empties = [t for t in list(out[0]) + list(out[2])
                if t[0] == b'with' and t[3] == b'' and (len(t[1]) == 2 or (isinstance(t[4], list) and t[4][0] == b'conc'))]
+    # a -Xclang argument whose JOINED value begins with `@` (the -Xclang loop has no `@` check, unlike the main loop)
+    if any(t[0] == b'with' and t[3].startswith(b'@') for t in out[2]) and (v.startswith('reparse') or v.startswith('lost: -Xclang') or v.startswith('invented')):
+        return 'C01-S42'
     if v.startswith('lost: a second `--`'):
         return 'C01-S24'
     if empties and (v.startswith('reparse') or v.startswith('lost: argument') or v.startswith('lost: -Xclang') or v.startswith('invented')):
